@@ -429,3 +429,38 @@ def oracle_any(c, impl_line):
 
 def describe_any(c):
     return describe_conf(c) if c.get("kind") == "conf" else describe(c)
+
+
+# ---------------------------------------------------------------------------------------------
+# concurrent stream: render cases inside the property's domain whose group / topic / owner names are distinct per
+# case, so that output leaking from one rendering into another is visible
+# ---------------------------------------------------------------------------------------------
+def gen_conc_batch(rng, templates, per_template):
+    cases = []
+    for tmpl in templates:
+        for _ in range(per_template):
+            c = gen_case(rng, tmpl, "wf")
+            i = len(cases)
+            c["cluster"] = "cluster-%d" % (i % 7)
+            c["group"] = "group-%d" % i
+            c["id"] = "event-%04d" % i
+            if not c["partitions"] and rng.random() < 0.6:     # most cases carry partitions: they go through jsonencoder
+                c["partitions"] = [gen_partition(rng, False) for _ in range(rng.randrange(1, 6))]
+                c["maxlag"] = c["partitions"][0]
+            seen = []
+            for k, p in enumerate((c["partitions"] or []) + [c["maxlag"]]):
+                if p is not None and not any(p is q for q in seen):
+                    seen.append(p)
+                    p["topic"], p["owner"], p["client"] = "topic-%d-%d" % (i, k), "owner-%d-%d" % (i, k), "client-%d" % i
+            c["mode"] = "conc"
+            cases.append(c)
+    rng.shuffle(cases)
+    return cases
+
+
+def conc_oracle(c, impl_line):
+    """Every concurrent rendering must equal the sequential rendering of the same case byte for byte, and that
+    rendering must satisfy the render oracle."""
+    if impl_line.startswith("SAME "):
+        return oracle(c, impl_line[5:])
+    return ["rendered concurrently (as the coordinator does), the case does not give its sequential output: " + impl_line[:300]]
